@@ -63,7 +63,7 @@ theorem ilti_step_telescope {s : Sys} (hs : SInv s) (h : ILTI s) (hil : ILInv s)
     · intro o ob hob
       obtain ⟨ob', g1, g2, g3, _⟩ := hrel.obs o ob hob
       exact ⟨ob', by rw [ho]; exact g1, g3, g2⟩
-  obtain ⟨t1, t2, t3, t4, t5, t6⟩ := h.tail hs hil hok (by rw [f2, hrel.cl]) (by rw [f2, hrel.cl])
+  obtain ⟨t1, t2, t3, t4, t5, t6, t7⟩ := h.tail hs hil hok (by rw [f2, hrel.cl]) (by rw [f2, hrel.cl])
     (by rw [f3, hrel.tasks]; exact IlTaskK.refl _) hold hnewAT
   -- supervisors after the block: an old one, or one created in this block
   have hAIcases : ∀ q' ∈ (s.resume p.pid orc).1.procs, ∀ o' tl, q'.k = .allocIngest o' tl →
@@ -73,7 +73,7 @@ theorem ilti_step_telescope {s : Sys} (hs : SInv s) (h : ILTI s) (hil : ILInv s)
     · rw [hp'k] at hqk; exact absurd hqk (by simp)
     · exact Or.inl hh
     · exact Or.inr hh
-  refine ⟨t1, t2, ?_, ?_, ?_, ?_, t3, t4, t5, t6, ?_⟩
+  refine ⟨t1, t2, ?_, ?_, ?_, ?_, t3, t4, t7, t5, t6, ?_⟩
   · -- supervisors before their first block
     intro q hq o' tl hqk hqc
     rcases hAIcases q hq o' tl hqk with ⟨hqo, _⟩ | hqn
@@ -253,6 +253,7 @@ theorem ilti_start (s0 : Sys) (hw : WFConfig s0) : ILTI s0.start := by
   · intro p hp' _ _ o d hk; have := hno p hp' (by rw [hk]; rfl); rw [hk] at this; cases this
   · intro p hp' _ _ t m preds o ret hk; have := hno p hp' (by rw [hk]; rfl); rw [hk] at this; cases this
   · intro p hp' _ _ t m preds o ret hk; have := hno p hp' (by rw [hk]; rfl); rw [hk] at this; cases this
+  · intro r hr; rw [ht] at hr; cases hr
   · intro e he; rw [hpend] at he; cases he
   · intro e he; rw [hrun] at he; cases he
   · intro e he; rw [hent] at he; cases he
